@@ -262,8 +262,12 @@ Proof.
       intros v Hv0. unfold c10_variant_ok in Hv0. rewrite !andb_true_iff in Hv0. destruct Hv0 as [[Hvid Hvd] _].
       unfold c10_member_id_ok in Hvid. apply andb_true_iff in Hvid as [Hvo Hvr].
       unfold sw_unit_variant_of. cbv zeta. eapply post_bind; [apply (sw_lift_post (fun r => keychars r = true)); intros a Ea; exact (camel_key _ _ Hvo Ea)|].
-      intros vn Pvn. apply post_ret. unfold c10_sw_variant_ok. cbn [swv_docs swv_name swv_raw swv_payload].
-      rewrite (sw_docs_ok _ (docs_line_ok _ Hvd)), Pvn. cbn [andb]. rewrite andb_true_r.
+      intros camel Pc.
+      (* fix 31: `_` in front of a digit-initial camelCased name, as in the algebraic arm *)
+      assert (Hname : keychars (match camel with c :: _ => if is_adigit c then lit "_" ++ camel else camel | [] => camel end) = true).
+      { destruct camel as [|c r]; [reflexivity|]. destruct (is_adigit c); [|exact Pc]. unfold keychars in *. rewrite forallb_app, Pc. reflexivity. }
+      apply post_ret. unfold c10_sw_variant_ok. cbn [swv_docs swv_name swv_raw swv_payload].
+      rewrite (sw_docs_ok _ (docs_line_ok _ Hvd)), Hname. cbn [andb]. rewrite andb_true_r.
       rewrite str_eqb_sym. apply raw_value_ok, Hvr.
     - eapply (post_mmapM _ _ (fun v => c10_variant_ok CSW v = true)); [|exact (forallb_Forall _ _ Hv)].
       intros v Hv0. unfold c10_variant_ok in Hv0. rewrite !andb_true_iff in Hv0. destruct Hv0 as [[Hvid Hvd] Hp].
